@@ -221,17 +221,22 @@ def run_matrix(ctx, want: str):
         clazz, text = document(kind, shape, pos)
         info = {"kind": kind, "shape": shape, "position": pos, "document": text}
         if want == "C15":
+            # the document element itself announced as nil (the requested classes are not nillable), content and all
+            docs = [("", text)]
+            if pos == "root":
+                docs.append((" (document element with xsi:nil)", text.replace(f"<{clazz.__name__}", f'<{clazz.__name__} {XSI} xsi:nil="true"', 1)))
             for strict in (False, True):
                 for unknown in (True, False):
                     cfg = ParserConfig(fail_on_converter_warnings=strict, fail_on_unknown_properties=unknown, fail_on_unknown_attributes=strict)
                     for h in HANDLERS:
+                      for note, doc_text in docs:
                         n += 1
-                        ctx.case(("xml-shape", kind, shape, pos, strict, unknown, h))
-                        out = parse(xctx, text, clazz, h, cfg)
+                        ctx.case(("xml-shape", kind, shape, pos, strict, unknown, h, note))
+                        out = parse(xctx, doc_text, clazz, h, cfg)
                         if out[0] == "ok" and not isinstance(out[1], clazz):
-                            ctx.violation(f"parser ({h}) returned {type(out[1]).__name__} for field kind {kind} / shape {shape}", dict(info, handler=h))
+                            ctx.violation(f"parser ({h}) returned {type(out[1]).__name__} ({out[1]!r}) for field kind {kind} / shape {shape}{note}"[:400], dict(info, handler=h, document=doc_text))
                         elif out[0] == "exc" and not isinstance(out[1], DOCUMENTED):
-                            ctx.violation(f"parser ({h}) leaked {show(out)} for field kind {kind} / shape {shape} ({pos})", dict(info, handler=h, strict=strict, unknown=unknown))
+                            ctx.violation(f"parser ({h}) leaked {show(out)} for field kind {kind} / shape {shape} ({pos}){note}", dict(info, handler=h, strict=strict, unknown=unknown, document=doc_text))
         elif want == "C08":
             for cfg_name, cfg in (("default", ParserConfig()), ("lenient", lenient)):
                 n += 1
